@@ -35,6 +35,7 @@ def sched_chain(rng, coin, shape):
     # log records written from the worker threads must not get mixed into what the callbacks print
     hot.append(b"\x00\x03\xaa\xbb\xcc")
     hot.append(b"\x6a" + gen.push(b"recurring opreturn payload"))
+    hot.append(b"\x6a" + gen.push(b"ctl \x1b[31mred\x1b[0m \x07bell \ttab \x00nul \x7f"))      # valid UTF-8 with control characters
     hot.append(b"\x00\x10" + rbytes(rng, 16))
     # the same 20 bytes / key in different roles (P2PKH, P2SH, P2PK, ...): per-worker state keyed by the payload alone would make the
     # address depend on which role a worker happened to see first
@@ -388,6 +389,45 @@ def extreme_case(spec):
             "sample": {"kind": "extreme", "coin": coin, "threads": spec["threads"]}}
 
 
+def run_on_pty(argv, env):
+    """stdout and stderr are a (raw) pseudo terminal, as when the command is typed in a shell: what the tool prints must not depend on it"""
+    import pty
+    import subprocess
+    import termios
+    import select
+    import time as _time
+    master, slave = pty.openpty()
+    attrs = termios.tcgetattr(slave)
+    attrs[1] = attrs[1] & ~termios.OPOST          # no output post-processing (no \n -> \r\n)
+    termios.tcsetattr(slave, termios.TCSANOW, attrs)
+    e = dict(os.environ)
+    e.pop("RUST_LOG", None)
+    e.update(env)
+    t0 = _time.time()
+    pr = subprocess.Popen(argv, env=e, stdin=subprocess.DEVNULL, stdout=slave, stderr=slave, close_fds=True)
+    os.close(slave)
+    buf = b""
+    while True:
+        r, _, _ = select.select([master], [], [], 0.2)
+        if r:
+            try:
+                chunk = os.read(master, 65536)
+            except OSError:
+                break
+            if not chunk:
+                break
+            buf += chunk
+        elif pr.poll() is not None:
+            break
+        if _time.time() - t0 > 600:
+            pr.kill()
+            os.close(master)
+            raise Inconclusive("watchdog fired (pty run)")
+    rc = pr.wait()
+    os.close(master)
+    return core.Proc(rc, buf.decode("utf-8", errors="replace"), "", False, _time.time() - t0)
+
+
 def env_case(spec):
     """One directory, one set of range options, different surroundings: working directory (relative -d path), dump folder name with
     spaces and a trailing slash, locale / time zone / RUST_LOG / HOME, log verbosity (-v, -vv: more log lines, same results)."""
@@ -403,7 +443,7 @@ def env_case(spec):
                 ("locale-tz", {"LANG": "tr_TR.UTF-8", "LC_ALL": "tr_TR.UTF-8", "LC_NUMERIC": "de_DE.UTF-8", "TZ": "Asia/Kolkata"}, None, "o", 0),
                 ("rust-log", {"RUST_LOG": "trace", "RUST_BACKTRACE": "full"}, None, "o", 0), ("no-home", {"HOME": "/nonexistent"}, None, "o", 0),
                 ("verbose-1", {}, None, "o", 1), ("verbose-2", {}, None, "o", 2),
-                ("long-dump-path", {}, None, "/".join(["p" * 60] * 3), 0)]
+                ("long-dump-path", {}, None, "/".join(["p" * 60] * 3), 0), ("stdout-is-a-terminal", {"TERM": "xterm-256color"}, None, "o", 0)]
     for cbname in spec["callbacks"]:
         digests = {}
         for name, env, cwd, dumpname, verbosity in variants:
@@ -411,7 +451,11 @@ def env_case(spec):
             shutil.rmtree(dump.rstrip("/"), ignore_errors=True)
             os.makedirs(dump, exist_ok=True)
             argv = harness.cli(binary, "./data dir" if cwd else d, coin, cbname, dump, verbosity=verbosity)
-            p = core.run(argv, env=dict(env, RAYON_NUM_THREADS="8"), cwd=cwd, timeout=600)
+            if name == "stdout-is-a-terminal":
+                p = run_on_pty(argv, dict(env, RAYON_NUM_THREADS="8"))
+                counters["runs_with_stdout_on_a_terminal"] = counters.get("runs_with_stdout_on_a_terminal", 0) + 1
+            else:
+                p = core.run(argv, env=dict(env, RAYON_NUM_THREADS="8"), cwd=cwd, timeout=600)
             if p.timed_out:
                 raise Inconclusive("watchdog fired (environment variant %s)" % name)
             counters["runs"] += 1
